@@ -1,5 +1,6 @@
 (* Svg/PathSep.v — F1 model of the separator logic of /repo/svg/pathdata.go (PathDataState.copyNumber, copyFlag):
-   which of " ", "." or nothing is written between two items of path data, and the rewrite of a trailing "00" to "e2".
+   which of " ", "." or nothing is written between two items of path data, and the rewrite of a trailing "00" to "e2"
+   (REPAIRED code: applied only to coordinates that contain no '.', 'e' or 'E', so 1e100 is no longer turned into 1e1e2).
    Items are the coordinates as minify.Number returns them and the arc flags.  Specification: the SVG 1.1 path-data BNF
    for numbers (maximal munch) and flags (single characters). *)
 From MV Require Import Base.MvBytes.
@@ -10,8 +11,8 @@ Record pstate := { prevDigit : bool; prevDigitIsInt : bool; prevFlag : bool }.
 Definition st_cmd : pstate := {| prevDigit := false; prevDigitIsInt := false; prevFlag := false |}.  (* right after a command letter *)
 
 Definition is_dot_or_e (c : byte) : bool := (c =? 46) || (c =? 101) || (c =? 69).
-Definition ends_00 (l : bytes) : bool :=
-  match rev l with 48 :: 48 :: _ :: _ => true | _ => false end.          (* len > 2 and the last two bytes are "00" *)
+Definition ends_00 (l : bytes) : bool :=                                  (* isInt && len > 2 && the last two bytes are "00" *)
+  match rev l with 48 :: 48 :: _ :: _ => negb (existsb is_dot_or_e l) | _ => false end.
 Definition rewrite_00 (l : bytes) : bytes := if ends_00 l then firstn (length l - 2) l ++ [101; 50] else l.
 
 (* copyNumber: returns the bytes appended to the buffer and the new state *)
@@ -101,7 +102,8 @@ Fixpoint emitted (st : pstate) (items : list item) : list item :=
   end.
 
 (* what minify.Number returns (checked by the harness on every coordinate): -? ( D+ | D* . D+ ) ( e -? D+ )?  ,
-   lower-case e, no '+', at least one digit; and the "00" -> "e2" rewrite is only sound for plain integers *)
+   lower-case e, no '+', at least one digit.  The "00" -> "e2" rewrite is only sound for plain integers: with the repaired
+   [ends_00] that is no longer a hypothesis ([rewrite_safe]) but a consequence of [min_number], see [ends_00_rewrite_safe] *)
 Definition all_digits (l : bytes) : bool := forallb is_digit l.
 Definition min_number (c : bytes) : bool :=
   match lex_number c with
@@ -112,7 +114,7 @@ Definition rewrite_safe (c : bytes) : bool :=
   if ends_00 c then match c with 45 :: d => all_digits d | d => all_digits d end else true.
 (* minify.Number never leaves a leading zero: a coordinate that starts with '0' is exactly "0" *)
 Definition zero_is_bare (c : bytes) : bool := match c with 48 :: _ :: _ => false | _ => true end.
-Definition ok_item (i : item) : bool := match i with INum c => min_number c && rewrite_safe c && zero_is_bare c | IFlag _ => true end.
+Definition ok_item (i : item) : bool := match i with INum c => min_number c && zero_is_bare c | IFlag _ => true end.
 
 (* flags come in pairs inside an arc and are followed by a number; a flag is never the first item after a number that
    ... (no constraint needed: a flag is always preceded by a space unless it follows a flag) *)
@@ -318,18 +320,23 @@ Qed.
 
 (* ---- ends_00 / rewrite_00 ---- *)
 Lemma ends_00_eq l : ends_00 l =
-  match rev l with a :: b :: _ :: _ => (a =? 48) && (b =? 48) | _ => false end.
+  match rev l with a :: b :: _ :: _ => (a =? 48) && (b =? 48) && negb (existsb is_dot_or_e l) | _ => false end.
 Proof.
   unfold ends_00. destruct (rev l) as [|a [|b [|x t]]]; try reflexivity; dz a; dz b.
 Qed.
 
-Lemma ends_00_spec c : ends_00 c = true -> exists d, d <> [] /\ c = d ++ [48; 48].
+Lemma ends_00_spec c : ends_00 c = true ->
+  exists d, d <> [] /\ c = d ++ [48; 48] /\ existsb is_dot_or_e c = false.
 Proof.
   rewrite ends_00_eq. destruct (rev c) as [|a [|b [|x t]]] eqn:E; try discriminate.
-  intros H. apply andb_true_iff in H as [Ha Hb]. apply Z.eqb_eq in Ha, Hb. subst.
-  exists (rev t ++ [x]). split; [destruct (rev t); discriminate|].
+  intros H. apply andb_true_iff in H as [H Hn]. apply andb_true_iff in H as [Ha Hb].
+  apply Z.eqb_eq in Ha, Hb. apply negb_true_iff in Hn. subst.
+  exists (rev t ++ [x]). split; [destruct (rev t); discriminate|]. split; [|exact Hn].
   rewrite <- (rev_involutive c), E. simpl. rewrite <- !app_assoc. reflexivity.
 Qed.
+
+Lemma ends_00_no_dot_e c : ends_00 c = true -> existsb is_dot_or_e c = false.
+Proof. intros E. destruct (ends_00_spec c E) as (d & _ & _ & H). exact H. Qed.
 
 Lemma firstn_drop2 {A} (d : list A) x y : firstn (length (d ++ [x; y]) - 2) (d ++ [x; y]) = d.
 Proof.
@@ -337,13 +344,24 @@ Proof.
   rewrite firstn_app_2. simpl. apply app_nil_r.
 Qed.
 
-Lemma rewrite_00_app d : d <> [] -> rewrite_00 (d ++ [48; 48]) = d ++ [101; 50].
+(* the rewrite as an equation: whenever the test fires, c = d00 with d non-empty and d00 is written de2 *)
+Lemma rewrite_00_yes c : ends_00 c = true ->
+  exists d, d <> [] /\ c = d ++ [48; 48] /\ rewrite_00 c = d ++ [101; 50].
 Proof.
-  intros Hd. unfold rewrite_00.
-  assert (E : ends_00 (d ++ [48; 48]) = true).
-  { rewrite ends_00_eq, rev_app_distr. simpl. destruct (rev d) eqn:R; [|reflexivity].
-    apply (f_equal (@rev _)) in R. rewrite rev_involutive in R. simpl in R. congruence. }
-  rewrite E, firstn_drop2. reflexivity.
+  intros E. destruct (ends_00_spec c E) as (d & Hd & Hc & _). exists d. repeat split; auto.
+  unfold rewrite_00. rewrite E. subst c. rewrite firstn_drop2. reflexivity.
+Qed.
+
+Lemma ends_00_app d : d <> [] -> existsb is_dot_or_e d = false -> ends_00 (d ++ [48; 48]) = true.
+Proof.
+  intros Hd Hx. rewrite ends_00_eq, rev_app_distr. cbn [rev app]. destruct (rev d) eqn:R.
+  - apply (f_equal (@rev _)) in R. rewrite rev_involutive in R. simpl in R. congruence.
+  - rewrite existsb_app, Hx. reflexivity.
+Qed.
+
+Lemma rewrite_00_app d : d <> [] -> existsb is_dot_or_e d = false -> rewrite_00 (d ++ [48; 48]) = d ++ [101; 50].
+Proof.
+  intros Hd Hx. unfold rewrite_00. rewrite (ends_00_app d Hd Hx), firstn_drop2. reflexivity.
 Qed.
 
 Lemma rewrite_00_no c : ends_00 c = false -> rewrite_00 c = c.
@@ -366,6 +384,50 @@ Proof.
   exists s, i, f, e. split; auto. rewrite app_nil_r in E2. exact E2.
 Qed.
 
+Lemma min_number_no_plus c : min_number c = true -> existsb (fun x => (x =? 43) || (x =? 69)) c = false.
+Proof.
+  unfold min_number. destruct (lex_number c) as [[lx [|? ?]]|]; try discriminate. apply negb_true_iff.
+Qed.
+
+(* a coordinate without '.', 'e', 'E' (and without '+') is an optional '-' followed by digits *)
+Lemma min_number_int_shape c : min_number c = true -> existsb is_dot_or_e c = false ->
+  exists s d, c = s ++ d /\ (s = [] \/ s = [45]) /\ all_digits d = true /\ d <> [].
+Proof.
+  intros Hm Hx. pose proof (min_number_no_plus c Hm) as Hp.
+  apply min_number_shape in Hm as (s & i & f & e & -> & Hs & Hi & Hf & He).
+  rewrite !existsb_app in Hx. apply orb_false_iff in Hx as [_ Hx]. apply orb_false_iff in Hx as [_ Hx].
+  apply orb_false_iff in Hx as [Hxf Hxe].
+  assert (f = []) as ->.
+  { destruct Hf as [[-> _] | (fd & -> & _)]; [reflexivity | discriminate Hxf]. }
+  assert (e = []) as ->.
+  { destruct He as [-> | (ec & es & ed & -> & [-> | ->] & _)]; [reflexivity | discriminate Hxe | discriminate Hxe]. }
+  assert (i <> []) by (destruct Hf as [[_ Hi0] | (fd & C & _)]; [exact Hi0 | discriminate C]).
+  exists s, i. rewrite !app_nil_r. repeat split; auto.
+  destruct Hs as [-> | [-> | ->]]; auto. discriminate Hp.
+Qed.
+
+Lemma all_digits_rewrite_match l : all_digits l = true ->
+  match l with 45 :: d => all_digits d | d => all_digits d end = true.
+Proof.
+  destruct l as [|x l']; [auto|]. intros H. revert H. dzt x ltac:(exact (fun h => h)).
+  unfold all_digits. cbn [forallb]. intros H. apply andb_true_iff in H as [_ H]. exact H.
+Qed.
+
+(* REPAIR: the rewrite test now implies what used to be the hypothesis [rewrite_safe] (finding K70) *)
+Lemma ends_00_rewrite_safe c : min_number c = true -> ends_00 c = true -> rewrite_safe c = true.
+Proof.
+  intros Hm E. unfold rewrite_safe. rewrite E.
+  destruct (min_number_int_shape c Hm (ends_00_no_dot_e c E)) as (s & d & -> & [-> | ->] & Hd & _).
+  - apply all_digits_rewrite_match. exact Hd.
+  - exact Hd.
+Qed.
+
+Lemma min_number_rewrite_safe c : min_number c = true -> rewrite_safe c = true.
+Proof.
+  intros Hm. destruct (ends_00 c) eqn:E; [apply ends_00_rewrite_safe; auto|].
+  unfold rewrite_safe. rewrite E. reflexivity.
+Qed.
+
 Definition num_start (x : byte) : Prop := x = 45 \/ x = 43 \/ x = 46 \/ is_digit x = true.
 
 Lemma shape_hd s i f e : num_shape s i f e -> s ++ i ++ f ++ e <> [] /\ num_start (hd 0 (s ++ i ++ f ++ e)).
@@ -382,7 +444,7 @@ Proof. intros H. apply min_number_shape in H as (s & i & f & e & -> & Hsh). appl
 Lemma rewrite_00_hd c : c <> [] -> rewrite_00 c <> [] /\ hd 0 (rewrite_00 c) = hd 0 c.
 Proof.
   intros Hc. destruct (ends_00 c) eqn:E.
-  - apply ends_00_spec in E as (d & Hd & ->). rewrite rewrite_00_app by auto.
+  - apply rewrite_00_yes in E as (d & Hd & -> & ->).
     destruct d; [congruence|]. split; [discriminate|reflexivity].
   - rewrite rewrite_00_no by auto. auto.
 Qed.
@@ -391,16 +453,17 @@ Definition not_neg00 (c : bytes) : bool := negb (beqb c [45; 48; 48]).
 Definition isint_of (c : bytes) : bool := if ends_00 c then false else negb (existsb is_dot_or_e c).
 Definition stop_frac (r : bytes) : Prop := nd r /\ hd 0 r <> 101 /\ hd 0 r <> 69.
 
-Lemma num_lex c rest : min_number c = true -> rewrite_safe c = true -> not_neg00 c = true ->
+Lemma num_lex c rest : min_number c = true -> not_neg00 c = true ->
   stop_frac rest -> (isint_of c = true -> hd 0 rest <> 46) ->
   lex_number (rewrite_00 c ++ rest) = Some (rewrite_00 c, rest).
 Proof.
-  intros Hm Hs Hn (Hnd & H101 & H69) Hint. unfold isint_of in Hint.
+  intros Hm Hn (Hnd & H101 & H69) Hint. unfold isint_of in Hint.
+  pose proof (min_number_rewrite_safe c Hm) as Hs.
   assert (Eexp : exp_shape [101; 50]).
   { right. exists 101, [], [50]. repeat split; auto; [left; reflexivity | discriminate]. }
   destruct (ends_00 c) eqn:E.
-  - destruct (ends_00_spec c E) as (d & Hd & ->). rewrite rewrite_00_app by auto.
-    destruct (rewrite_safe_spec _ Hs E) as [(d' & Hc & Hd') | Hall].
+  - destruct (rewrite_safe_spec _ Hs E) as [(d' & Hc & Hd') | Hall];
+      destruct (rewrite_00_yes c E) as (d & Hd & -> & ->).
     + destruct d as [|y d0]; [congruence|]. simpl in Hc. inversion Hc; subst.
       unfold all_digits in Hd'. rewrite forallb_app in Hd'. apply andb_true_iff in Hd' as [Hd0 _].
       assert (d0 <> []) by (intros ->; vm_compute in Hn; discriminate).
@@ -469,7 +532,7 @@ Proof.
   - cbn [forallb] in Hok. apply andb_true_iff in Hok as [Hit Hok]. destruct it as [c | b].
     + (* number *)
       unfold ok_item', ok_item in Hit. apply andb_true_iff in Hit as [Hit Hn].
-      apply andb_true_iff in Hit as [Hit Hz]. apply andb_true_iff in Hit as [Hm Hs].
+      apply andb_true_iff in Hit as [Hm Hz].
       destruct (num_hd c Hm) as [Hne Hst]. destruct (rewrite_00_hd c Hne) as [Hwne Hwhd].
       cbn [map kind_of emit emitted lex_items].
       destruct (copy_number_cases st c) as [(-> & P & Q & Hc0) | (sep & -> & Hsep)].
@@ -577,8 +640,8 @@ Theorem written_number_splits : forall c rest, ok_item' (INum c) = true ->
   lex_number (rewrite_00 c ++ rest) = Some (rewrite_00 c, rest).
 Proof.
   intros c rest Hok A B C D. unfold ok_item', ok_item in Hok.
-  apply andb_true_iff in Hok as [Hok Hn]. apply andb_true_iff in Hok as [Hok _].
-  apply andb_true_iff in Hok as [Hm Hs]. apply num_lex; auto. repeat split; auto.
+  apply andb_true_iff in Hok as [Hok Hn]. apply andb_true_iff in Hok as [Hm _].
+  apply num_lex; auto. repeat split; auto.
 Qed.
 
 (* the natural reading of the harness check: minify.Number never returns a negative zero prefix "-0..." *)
@@ -600,7 +663,7 @@ Theorem emitted_lexemes : forall items st, forallb ok_item items = true ->
 Proof.
   induction items as [|it items IH]; intros st Hok; [constructor|].
   cbn [forallb] in Hok. apply andb_true_iff in Hok as [Hit Hok]. destruct it as [c | b].
-  - unfold ok_item in Hit. apply andb_true_iff in Hit as [Hit Hz]. apply andb_true_iff in Hit as [Hm Hs].
+  - unfold ok_item in Hit. apply andb_true_iff in Hit as [Hm Hz].
     destruct (num_hd c Hm) as [Hne Hst]. destruct (rewrite_00_hd c Hne) as [Hwne Hwhd].
     destruct (num_start_facts _ Hst) as (F1 & F2 & F3 & F4).
     cbn [emitted].
@@ -614,12 +677,13 @@ Proof.
   - cbn [emitted copy_flag]. constructor; [reflexivity | apply IH; exact Hok].
 Qed.
 
-(* the "00" -> "e2" rewrite is applied to plain integers only: d00 becomes de2 (same value: d*100 = d*10^2) *)
+(* the "00" -> "e2" rewrite is applied to plain integers only: d00 becomes de2 (same value: d*100 = d*10^2);
+   the hypothesis [rewrite_safe] is kept in the statement for compatibility, it is not used (and follows from
+   [min_number], see [ends_00_rewrite_safe]) *)
 Theorem rewrite_00_shape : forall c, rewrite_safe c = true -> ends_00 c = true ->
   exists d, c = d ++ [48; 48] /\ rewrite_00 c = d ++ [101; 50] /\ d <> [].
 Proof.
-  intros c _ E. destruct (ends_00_spec c E) as (d & Hd & ->).
-  exists d. repeat split; auto. apply rewrite_00_app; auto.
+  intros c _ E. destruct (rewrite_00_yes c E) as (d & Hd & Hc & Hw). exists d. auto.
 Qed.
 
 (* with the corrected predicate the rewritten prefix also keeps a digit: d is a non-empty digit string, optionally signed *)
@@ -628,10 +692,10 @@ Theorem rewrite_00_shape_digits : forall c, ok_item' (INum c) = true -> ends_00 
               (s = [] \/ s = [45]) /\ all_digits d = true /\ d <> [].
 Proof.
   intros c Hok E. unfold ok_item', ok_item in Hok.
-  apply andb_true_iff in Hok as [Hok Hn]. apply andb_true_iff in Hok as [Hok _].
-  apply andb_true_iff in Hok as [_ Hs].
-  destruct (ends_00_spec c E) as (d & Hd & ->). rewrite rewrite_00_app by auto.
-  destruct (rewrite_safe_spec _ Hs E) as [(d' & Hc & Hd') | Hall].
+  apply andb_true_iff in Hok as [Hok Hn]. apply andb_true_iff in Hok as [Hm _].
+  pose proof (ends_00_rewrite_safe c Hm E) as Hs.
+  destruct (rewrite_safe_spec _ Hs E) as [(d' & Hc & Hd') | Hall];
+    destruct (rewrite_00_yes c E) as (d & Hd & -> & ->).
   - destruct d as [|y d0]; [congruence|]. simpl in Hc. inversion Hc; subst.
     unfold all_digits in Hd'. rewrite forallb_app in Hd'. apply andb_true_iff in Hd' as [Hd0 _].
     exists [45], d0. repeat split; auto. intros ->. vm_compute in Hn. discriminate.
@@ -649,3 +713,22 @@ Example sep_example_1_ok : forallb ok_item' [INum [49]; INum [46; 53]; INum [48]
 Proof. vm_compute. reflexivity. Qed.
 Example sep_example_arc_ok : forallb ok_item' [INum [49]; INum [49]; INum [48]; IFlag false; IFlag true; INum [53]; INum [53]] = true.
 Proof. vm_compute. reflexivity. Qed.
+
+(* REPAIRED behaviour (finding K70): the exponent coordinate "1e100" ends in "00" but contains 'e', so it is no longer
+   rewritten (the old code wrote "1e1e2"); it is written verbatim, is not a plain integer, and a following "0" is ".0" *)
+Example exponent_00_not_rewritten :
+  emit st_cmd [INum [49; 101; 49; 48; 48]; INum [48]] = [49; 101; 49; 48; 48; 46; 48].
+Proof. vm_compute. reflexivity. Qed.
+Example exponent_00_ok : ok_item (INum [49; 101; 49; 48; 48]) = true.
+Proof. vm_compute. reflexivity. Qed.
+Example exponent_00_facts :
+  ends_00 [49; 101; 49; 48; 48] = false /\ rewrite_00 [49; 101; 49; 48; 48] = [49; 101; 49; 48; 48] /\
+  forallb ok_item' [INum [49; 101; 49; 48; 48]; INum [48]] = true /\
+  lex_items [false; false] (emit st_cmd [INum [49; 101; 49; 48; 48]; INum [48]])
+    = Some ([INum [49; 101; 49; 48; 48]; INum [46; 48]], []).
+Proof. vm_compute. repeat split; reflexivity. Qed.
+(* the hypothesis that used to exclude this case is now a theorem about every coordinate *)
+Theorem ok_item_rewrite_safe : forall c, ok_item (INum c) = true -> rewrite_safe c = true.
+Proof.
+  intros c H. unfold ok_item in H. apply andb_true_iff in H as [Hm _]. apply min_number_rewrite_safe; exact Hm.
+Qed.
